@@ -165,6 +165,14 @@ BOUNDED_STANDINS = {
                    why='guards pyvc\'s model of Python and the trusted axioms behind the proved obligations of these kernels; '
                        'decides nothing about the property',
                    bound='random cases per kernel')] for pid_ in ('C01', 'C05', 'C11', 'C12')},
+    'C08': [dict(name='if-comparison', script='pyvc/native/bounded_c08.py', quick=['4'], thorough=['12'],
+                 what='IfPreprocessorCondition / ElifPreprocessorCondition._evaluate_condition: 6 operators x integer values '
+                      '-N..N, 255, 256, 65535 on both sides x 4 ways of writing a side (decimal, $hex, a defined symbol, a '
+                      'parenthesised sum), and the bare form, against "compare integers when both sides are numeric; a bare '
+                      'expression means not equal to 0"',
+                 why='symbol resolution + expression parsing + comparison of mixed int/str values; under contract only '
+                     'through the abstract `comparison_holds`',
+                 bound='N')],
     'C16': [dict(name='listing-byte-rows', script='pyvc/native/bounded_c16.py', quick=['64'], thorough=['400'],
                  what='ListingPrettyPrinter._generate_bytecode_line_string: every length up to the bound x row widths 1..8, '
                       'real helper, rows decoded back to the bytes',
